@@ -4,7 +4,7 @@ from .. import scriptprop
 ID = "C06"
 RULE = ("three-way lock-step histories (fork, standard library, Lean heap model + sequence spec) over 3 lists (one a never-initialised zero value) with element handles "
         "drawn from live, removed and foreign elements, PushBackList/PushFrontList incl. onto itself, Init; and ring histories with counts in -7..7 and multiples of the ring length, "
-        "Link of same-ring and different-ring positions, Unlink, zero-value rings; non-trivial = at least 5 mutating operations")
+        "Link of same-ring and different-ring positions, Unlink, zero-value rings (incl. the FIRST call on a never-touched zero ring), Link(nil); non-trivial = at least 5 mutating operations")
 ASSUMPTIONS = ["container/list and container/ring are the oracle named by the property", "Ring.Do callbacks do not mutate the ring"]
 
 
